@@ -1,13 +1,100 @@
-import Sqfs.Spec.Xfrm
-namespace Sqfs.C15
-open Sqfs.Xfrm
+/-
+C15 — Stream compression of tar input/output is transparent.
 
-theorem toy_decode_encBytes (x r : Bytes) : Toy.decode (Toy.encBytes x ++ 0 :: r) = if r = [] then some x else (Toy.decode (Toy.encBytes x ++ 0 :: r)) := by
-  split <;> rename_i h
-  · subst h
-    induction x with
-    | nil => simp [Toy.encBytes, Toy.decode]
-    | cons b t ih => simp [Toy.encBytes, Toy.decode, ih]
-  · rfl
+Property theorems only (helpers: `Sqfs/Proofs/Xfrm.lean`; contracts: `Sqfs/Spec/XfrmContract.lean`; model:
+`Sqfs/Model/Xfrm.lean`).  Everything is stated for an **arbitrary** codec `C` that meets the written-down
+contract (`EncContract` / `DecContract`), an arbitrary one-shot reference decoder `Dec` of single members,
+every buffer size `bufsz > 0`, every history of operations, every chunking.  The four compression libraries
+are not verified; they enter through the contracts (trusted base, exercised by the correspondence check
+against reference decompressors).
+
+"Terminates" is expressed with the models' explicit fuel: there is an amount of fuel from which on the
+result no longer depends on the fuel and is not "still running".
+-/
+import Sqfs.Proofs.Xfrm
+namespace Sqfs.C15
+open Sqfs.Xfrm Sqfs.Xfrm.Spec
+
+variable {σ : Type} {C : Codec σ} {Dec : Bytes → Option Bytes}
+
+/--
+**ostream_transparent.**  After any history of `append` / `flush` calls on a fresh `ostream_xfrm`, in any
+chunking (an `append(NULL, n)` is `OOp.append (appendBytes none n)`, i.e. `n` zero bytes), no call fails or
+hangs, and what has reached the wrapped stream is a sequence of members `ms`, one per non-empty flushed
+segment, each decoding to exactly the bytes appended between the two flushes, followed by the part already
+written for the still open segment — nothing at all if the history ends with a flush.
+-/
+theorem ostream_transparent (hC : EncContract C Dec) {bufsz : Nat} (hb : 0 < bufsz) (ops : List OOp) :
+    ∃ fuel st, (∀ f, fuel ≤ f → oRun C bufsz f (oInit C) ops = some (.ok st)) ∧
+      ∃ ms part, Members Dec ms (opsSegs [] [] ops).1 ∧ st.sink = ms.flatten ++ part ∧
+        ((opsSegs [] [] ops).2 = [] → part = [] ∧ st.inbuf = []) := by
+  obtain ⟨f0, st, hI, hrun⟩ := oRun_spec hC hb ops (oInit C) [] [] (OInv_init hC)
+  refine ⟨f0, st, hrun, ?_⟩
+  obtain ⟨ms, x, y, hms, _, hsink, hcur, hxy, _⟩ := hI
+  refine ⟨ms, y, hms, hsink, ?_⟩
+  intro h
+  rw [h] at hcur
+  have hx : x = [] := (List.append_eq_nil_iff.1 hcur.symm).1
+  exact ⟨hxy hx, (List.append_eq_nil_iff.1 hcur.symm).2⟩
+
+/--
+The plain reading of the property: the bytes written by `append*; flush` decode to the input, whatever the
+chunking (`chunks`) — one member holding everything if anything was appended, nothing otherwise.
+-/
+theorem ostream_transparent_single (hC : EncContract C Dec) {bufsz : Nat} (hb : 0 < bufsz) (chunks : List Bytes) :
+    ∃ fuel st, (∀ f, fuel ≤ f → oRun C bufsz f (oInit C) (chunks.map OOp.append ++ [OOp.flush]) = some (.ok st)) ∧
+      st.inbuf = [] ∧
+      (chunks.flatten ≠ [] → Dec st.sink = some chunks.flatten) ∧ (chunks.flatten = [] → st.sink = []) := by
+  obtain ⟨fuel, st, hrun, ms, part, hms, hsink, hpart⟩ := ostream_transparent hC hb (chunks.map OOp.append ++ [OOp.flush])
+  have hsegs : ∀ (cs : List Bytes) (cur : Bytes),
+      opsSegs [] cur (cs.map OOp.append ++ [OOp.flush]) =
+        if cur ++ cs.flatten = [] then ([], []) else ([cur ++ cs.flatten], []) := by
+    intro cs
+    induction cs with
+    | nil => intro cur; by_cases h : cur = [] <;> simp [opsSegs, h]
+    | cons c cs ih => intro cur; simp [opsSegs, ih, List.append_assoc]
+  have hs := hsegs chunks []
+  simp only [List.nil_append] at hs
+  refine ⟨fuel, st, hrun, ?_, ?_, ?_⟩
+  · by_cases h : chunks.flatten = [] <;> (rw [hs] at hpart; simp [h] at hpart; exact hpart.2)
+  · intro h
+    rw [hs, if_neg h] at hms hpart
+    obtain ⟨hp, _⟩ := hpart rfl
+    cases hms with
+    | cons hm hrest =>
+      cases hrest
+      simpa [hsink, hp] using hm
+  · intro h
+    rw [hs, if_pos h] at hms hpart
+    obtain ⟨hp, _⟩ := hpart rfl
+    cases hms
+    simp [hsink, hp]
+
+/--
+**ostream_flush_terminates.**  After any history, `xfrm_flush` (whose `flush_inbuf(finish)` loop has no bound
+in the C code) comes back, without error, and leaves nothing buffered.
+-/
+theorem ostream_flush_terminates (hC : EncContract C Dec) {bufsz : Nat} (hb : 0 < bufsz) (ops : List OOp) :
+    ∃ fuel st st', (∀ f, fuel ≤ f → oRun C bufsz f (oInit C) ops = some (.ok st)) ∧
+      (∀ f, fuel ≤ f → oFlush C bufsz f st = some (.ok st')) ∧ st'.inbuf = [] := by
+  obtain ⟨f1, st, hI, hrun⟩ := oRun_spec hC hb ops (oInit C) [] [] (OInv_init hC)
+  obtain ⟨f2, st', hI', hfl⟩ := oFlush_spec hC hb st _ _ hI
+  refine ⟨max f1 f2, st, st', fun f hf => hrun f (by omega), fun f hf => hfl f (by omega), ?_⟩
+  obtain ⟨_, x, _, _, _, _, hcur, _, _⟩ := hI'
+  exact (List.append_eq_nil_iff.1 hcur.symm).2
+
+/-- Non-vacuity: the toy codec (internal queue, limited intake and output granularity, any knob setting) meets
+the encoder contract with the toy format's one-shot decoder. -/
+theorem toy_encoder_meets_contract (P : Toy.Params) : Nonempty (EncContract (Toy.encoder P) Toy.decode) :=
+  ⟨Toy.encContract P⟩
+
+/-- the toy format round-trips (so `Toy.decode` is a meaningful reference decoder) -/
+theorem toy_decode_encode (x : Bytes) : Toy.decode (Toy.encode x) = some x := Toy.decode_encode x
+
+/-- a concrete run: 5 bytes through a 4-byte buffer with the most restrictive toy codec -/
+example : (match oRun (Toy.encoder ⟨0, 0, 0⟩) 4 1000 (oInit (Toy.encoder ⟨0, 0, 0⟩))
+      [OOp.append [65, 66, 67, 68, 69], OOp.flush] with
+    | some (.ok st) => Toy.decode st.sink
+    | _ => none) = some [65, 66, 67, 68, 69] := by decide
 
 end Sqfs.C15
